@@ -2,6 +2,7 @@
    Parses the shared program language, runs the model, prints one observation
    line per program line in the same format as the implementation harness fjv. *)
 open Fjmodel
+type string = Stdlib.String.t
 
 (* ---------- N <-> int ---------- *)
 let rec pos_of_int i = if i = 1 then XH else if i land 1 = 0 then XO (pos_of_int (i lsr 1)) else XI (pos_of_int (i lsr 1))
@@ -301,8 +302,63 @@ let cmd_encode comp_s thr_s =
   done with End_of_file -> ());
   print_endline (hex_of_bytes (enc_journal hash compress (List.rev !batches)))
 
+(* ---------- options (C16) ---------- *)
+let n_of_hex s = n_of_string (Printf.sprintf "%u" (int_of_string ("0x" ^ s)))
+let parse_list f s = if s = "" then [] else List.map f (split ',' s)
+let parse_comp s = if s = "lz4" then CLz4 else CNone
+let parse_opts (toks : string list) : opts =
+  List.fold_left (fun o tok ->
+    match String.index_opt tok '=' with
+    | None -> o
+    | Some i ->
+      let k = String.sub tok 0 i and v = String.sub tok (i + 1) (String.length tok - i - 1) in
+      let b x = x = "1" in
+      match k with
+      | "mt" -> { o with o_mt = n_of_string v }
+      | "manualp" -> { o with o_manual = b v }
+      | "eprh" -> { o with o_eprh = b v }
+      | "dbs" -> { o with o_dbs = parse_list n_of_string v }
+      | "dbri" -> { o with o_dbri = parse_list n_of_string v }
+      | "dbhr" -> { o with o_dbhr = parse_list n_of_hex v }
+      | "ibpin" -> { o with o_ibpin = parse_list b v }
+      | "fbpin" -> { o with o_fbpin = parse_list b v }
+      | "ibpart" -> { o with o_ibpart = parse_list b v }
+      | "fbpart" -> { o with o_fbpart = parse_list b v }
+      | "dbc" -> { o with o_dbc = parse_list parse_comp v }
+      | "ibc" -> { o with o_ibc = parse_list parse_comp v }
+      | "fp" -> { o with o_fp = parse_list (fun e -> if e = "n" then FNoFilter
+                   else if e.[0] = 'b' then FBits (n_of_hex (String.sub e 1 8)) else FFpr (n_of_hex (String.sub e 1 8))) v }
+      | "lev" -> (match split ':' v with
+                  | [a; t; r] -> { o with o_strategy = SLeveled (n_of_string a, n_of_string t, parse_list n_of_hex r) }
+                  | _ -> o)
+      | "fifo" -> (match split ':' v with
+                   | [l; t] -> { o with o_strategy = SFifo (n_of_string l, if t = "-" then None else Some (n_of_string t)) }
+                   | _ -> o)
+      | "blob" -> (match split ':' v with
+                   | [a; t; st; ag; c] -> { o with o_blob = Some { b_thr = n_of_string a; b_target = n_of_string t;
+                                              b_stale = n_of_hex st; b_age = n_of_hex ag; b_comp = parse_comp c } }
+                   | _ -> o)
+      | _ -> o) default_opts toks
+let cfg_line (o : opts) =
+  let rows = List.map (fun (k, v) -> (ascii_of_bytes k, v)) (encode_kvs o) in
+  let rows = List.sort compare rows in
+  String.concat "," (List.map (fun (k, v) -> k ^ "=" ^ hex_of_bytes v) rows)
+  ^ ",kvsep=" ^ (match o.o_blob with Some _ -> "1" | None -> "0")
+(* stdin: one option record per line (ksx tokens); output per line: the cfg line right after creation and the
+   cfg line of from_kvs(encode_kvs o) (what a reopen restores) *)
+let cmd_opts () =
+  (try while true do
+    let l = input_line stdin in
+    let o = parse_opts (List.filter (fun t -> t <> "") (split ' ' l)) in
+    print_endline (cfg_line o);
+    (match from_kvs (encode_kvs o) with
+     | Some o' -> print_endline (cfg_line o')
+     | None -> print_endline "decode-failed")
+  done with End_of_file -> ())
+
 let () =
   match Array.to_list Sys.argv with
+  | [_; "opts"] -> cmd_opts ()
   | [_; "run"; cfg; file] -> cmd_run cfg file
   | [_; "readjournal"; file] -> cmd_readjournal file
   | [_; "cuts"; file] -> cmd_cuts file
